@@ -576,6 +576,33 @@ def h_replace_str(prop, case, facts, kind="dfa", n=3, timeout=1800):
                    unwindset={("11replace_str", None): w + 1, ("19run_utf8_validation", None): n + 2})
 
 
+def h_replace_script(prop, which, n, timeout=1800, mem_gb=24):
+    """Compositional C12 harness: real replace driver + real FindIter over an abstract (symbolic) searcher."""
+    # output bound: every offset 0..=N can carry an (empty) match: N+1 tags of up to two bytes, plus N bytes
+    w = 3 * n + 3
+    name = "h_repl%s_script_n%d" % (which, n)
+    body = "    t::replace_%s_script::<%d, %d>();" % ("bytes" if which == "b" else "str", n, w)
+    nt = n + 1
+    schema = []
+    for i in range(nt):
+        schema += [("present%d" % i, "bool"), ("pid%d" % i, "u8"), ("ms%d" % i, "u8"), ("me%d" % i, "u8")]
+    schema += [("std", "bool"), ("hay", ("bytes", n)), ("stop", "usize")]
+    meta = dict(template="replace_%s_script" % ("bytes" if which == "b" else "str"), replay_template="replace_script", N=n,
+                fixed_inputs={"which": which, "n": n},
+                symbolic=["the search function: for every start offset, no match or any match (pattern 0/1, start >= offset, end <= N)",
+                          "haystack bytes" + (" (valid UTF-8 assumed)" if which == "s" else ""), "call at which the closure returns false"],
+                composition="the replace routine reaches the automaton only through the non-overlapping iterator, which reaches it only through try_find; with C01/C02 (try_find is the defined search) the splice equality transfers to every pattern list")
+    stub = ("alloc::vec::Vec::<T, A>::append_elements", "crate::stubs::append_elements_nogrow") if which == "b" else \
+           ("alloc::vec::Vec::<T, A>::extend_from_slice", "crate::stubs::extend_from_slice_nogrow")
+    uws = {("replace_%s_script" % ("bytes" if which == "b" else "str"), None): w + 1}
+    if which == "s":
+        uws[("19run_utf8_validation", None)] = n + 2
+    return Harness(name, None, body, n + 3, schema, meta, timeout=timeout, mem_gb=mem_gb,
+                   functions=F_REPLACE + ["abstract searcher (hook): Automaton::try_find answered from a symbolic table"] + (["str::is_char_boundary"] if which == "s" else []),
+                   stubs=[stub], unwindset=uws, covers_required=True,
+                   unsat_ok={"only skipped matches"} if n < 3 else set())
+
+
 def h_purity(prop, case, facts, kind="dfa", n=4, timeout=1200):
     name = "h_pure_%s_%s_n%d" % (case.name, kind, n)
     body = _body(case, kind, "t::purity::<%s, _, %d>(&a)" % (case.mod, n))
@@ -1300,12 +1327,19 @@ def _schedule(prop, tier, seed):
             return hs
         return cases, mk
     if prop == "C12":
-        cases = [Case("c12std_two", ["ab", "b"], mk="std"), Case("c12lf_two", ["ab", "a"], mk="lf"),
+        cases = [] if quick else [Case("c12std_two", ["ab", "b"], mk="std"), Case("c12lf_two", ["ab", "a"], mk="lf"),
                  Case("c12lf_empty", ["a", ""], mk="lf"), Case("c12std_split", [b"\xc3", "a"], mk="std"),
                  Case("c12lf_split", [b"\xa9", b"\xc3\xa9x"], mk="lf")]
 
         def mk(facts):
             hs = []
+            # compositional harnesses (abstract searcher): measured N=4 160 s (str) / 380 s (bytes), N=2 60 s
+            nscript = int(__import__("os").environ.get("VERIF_C12S", "4" if quick else "5"))
+            hs.append(h_replace_script(prop, "b", nscript, timeout=1500 if quick else 5400))
+            hs.append(h_replace_script(prop, "s", nscript, timeout=1500 if quick else 5400))
+            if quick:
+                # the direct harnesses (real automaton under the driver) cost 8-17 min at N=1..2: thorough only
+                return hs
             for c in cases:
                 # measured: 8-13 min and up to 20 GB per harness at N=2 even with the no-growth stub
                 if "split" not in c.name and (not quick or c.name in ("c12lf_empty",)):
